@@ -32,7 +32,9 @@ def unhex6 : List Char → List Char
   | _ => []
 
 /-- group token: "-" = None, "[]" = empty list, else comma separated members: "s<hex6...>" or "n" -/
-def parseGroupTok (t : String) : Option (List PyMember) :=
+def parseGroupTok (t0 : String) : Option (List PyMember) :=
+  -- "S:" prefix = the harness passes the group to the real API as one str (iterated char by char)
+  let t := if t0.startsWith "S:" then (t0.drop 2).toString else t0
   if t == "-" then none
   else if t == "[]" then some []
   else some ((t.splitOn ",").map (fun m =>
